@@ -17,7 +17,20 @@
 #include "sock_internal.h"
 #include "timerqueue.h"
 
+#include "humansize.h"
+#include "sock_util.h"
+
 #include "shim.h"
+
+void * s_resolve(const char * a) { return (sock_resolve(a)); }
+void s_freelist(void * s) { sock_addr_freelist(s); }
+void * s_addr_dup(void * sas, int i) { return (sock_addr_dup(((struct sock_addr **)sas)[i])); }
+void s_addr_free(void * a) { sock_addr_free(a); }
+int s_addr_cmp(void * a, void * sas, int i) { return (sock_addr_cmp(a, ((struct sock_addr **)sas)[i])); }
+int s_addr_serialize(void * sas, int i, uint8_t ** buf, size_t * len) { return (sock_addr_serialize(((struct sock_addr **)sas)[i], buf, len)); }
+void * s_addr_deserialize(const uint8_t * buf, size_t len) { return (sock_addr_deserialize(buf, len)); }
+char * s_addr_pretty(void * sas, int i) { return (sock_addr_prettyprint(((struct sock_addr **)sas)[i])); }
+char * s_humansize(uint64_t n) { return (humansize(n)); }
 
 void * s_ea_init(size_t n, size_t r) { return (elasticarray_init(n, r)); }
 int s_ea_resize(void * e, size_t n, size_t r) { return (elasticarray_resize(e, n, r)); }
